@@ -155,8 +155,7 @@ type c33Walk struct {
 	fn      *ssa.Function
 	onInstr func(in ssa.Instruction, st *c33State) (c33Act, string)
 	// onIf may prune: it returns which successors to follow (default: both).
-	onIf func(in *ssa.If, st *c33State) (follow [2]bool)
-	// onExit is called when a path leaves the function without a Return (panic / no successors).
+	onIf    func(in *ssa.If, st *c33State) (follow [2]bool)
 	steps   int
 	visited map[string]bool
 	bad     string
